@@ -71,14 +71,24 @@ def getStoich (c : Content) (vars : Option (List (Name × Rat))) (t : Rat) :
   let dep ← getArgsEnv c cache (resolveVars cache vars) t
   overlayDynAll dep cache.dynStoich cache.stoich
 
-/-- `get_stoichiometries_of_variable(variable, variables, time)`: that variable's row of the table
-    (KeyError for a variable no stoichiometry mentions) -/
+/-- `for rxn, derived in cache.dyn_stoich_by_cpds.get(variable, {}).items(): stoich[rxn] = derived.fn(…)` -/
+def overlayRow (dep : Env) : List (Name × Fn) → List (Name × Rat) → Except Err (List (Name × Rat))
+  | [], row => pure row
+  | (rxn, f) :: rest, row => do
+    let v ← f.calc dep
+    overlayRow dep rest (omInsert row rxn v)
+
+/-- `get_stoichiometries_of_variable(variable, variables, time)`: that variable's row of the static
+    table (KeyError for a variable no stoichiometry mentions) with ITS computed coefficients
+    evaluated — the computed coefficients of other variables are not touched (so a coefficient of
+    another variable that cannot be evaluated does not make this query fail) -/
 def getStoichOfVar (c : Content) (x : Name) (vars : Option (List (Name × Rat))) (t : Rat) :
     Except Err (List (Name × Rat)) := do
-  let tbl ← getStoich c vars t
-  match tbl.lookup x with
-  | some row => pure row
+  let cache ← createCache c
+  let dep ← getArgsEnv c cache (resolveVars cache vars) t
+  match cache.stoich.lookup x with
   | none => .error (.keyError x)
+  | some row => overlayRow dep ((cache.dynStoich.lookup x).getD []) row
 
 /-! ### time-course forms: the pointwise forms mapped over the rows of a table -/
 
